@@ -626,6 +626,34 @@ theorem isCentredRep_zero {M : ℕ} (hM : 0 < M) {v : ℝ} (h : IsCentredRep M (
       omega
   rw [hv, hr, hc0]; simp
 
+/-- **Identical images give a zero shift for every upsampling factor, through both entry points**, on
+the FFT tables and with any positive `max_shift`: one statement for `up = 0, 1, 2, 3, …` (the dispatch
+is inside `shiftNp` / `shiftTorch`).  The strictness hypotheses are needed only on the upsampled
+branches and are discharged by `patch_strict_of_axis_coeffs_np/_torch`. -/
+theorem identical_zero_every_factor {M N : ℕ} (hM : 0 < M) (hN : 0 < N) (x : ℕ → ℕ → ℝ)
+    (hx : UniquePeak M N x) (hpos : 0 < cc M N x x 0 0) (up : ℕ) (ms : Option ℝ) (hms : ∀ m, ms = some m → 0 < m)
+    (hsn : 2 ≤ up → UniqueMaxAt (sideNp up) (sideNp up)
+      (patchNp M N up (ccF (dft2At M N x) (dft2At M N x)) 0 0) (du up) (du up))
+    (hst : 3 ≤ up → UniqueMaxAt (sideTorch up) (sideTorch up)
+      (patchTorch M N up (conjF (ccF (dft2At M N x) (dft2At M N x))) (centerTorch up (snapTorch up (0 : ℝ)))
+        (centerTorch up (snapTorch up (0 : ℝ)))) (gShift up) (gShift up)) :
+    shiftNp M N up (masked M N ms (ccRealFFT M N x x)) (ccRealFFT M N x x) (ccF (dft2At M N x) (dft2At M N x)) = (0, 0) ∧
+    shiftTorch M N up (ccRealFFT M N x x) (ccF (dft2At M N x) (dft2At M N x)) = (0, 0) := by
+  rw [correlation_theorem hM hN]
+  have hcs := masked_uniqueMax_zero hM hN _ ms hms (uniquePeak_uniqueMax hM hN x hx) (by simpa [corrTable] using hpos)
+  constructor
+  · rw [shiftNp_eq]
+    split
+    · exact shiftNp1_identical hM hN x _ hcs
+    · exact shiftNpUp_identical hM hN x _ hcs up (by omega) _ (hsn (by omega))
+  · rw [shiftTorch_eq]
+    split
+    · have h := integer_shift_torch hM hN x hx 0 0
+      dsimp only at h
+      rw [corrTable_roll_zero hM hN] at h
+      exact Prod.ext (isCentredRep_zero hM h.1) (isCentredRep_zero hN h.2)
+    · exact identical_zero_upsampled_torch hM hN x hx up (by omega) _ (hst (by omega))
+
 /-- **Non-vacuity, every hypothesis discharged**: the 3 × 3 single-pixel image translated by `(1, 2)` is
 located exactly by the NumPy entry point at every factor `up` (0, 1, 2, …, 64, …), with `max_shift = 2`. -/
 theorem integer_shift_np_every_factor_delta (up : ℕ) :
